@@ -486,6 +486,9 @@ func Run(c *common.Ctx) error {
 		}
 	}
 	_ = lfs.ChecksumFlag
+	if err := recreatedAfterDrop(c, c.Rng.Fork()); err != nil {
+		return err
+	}
 	for _, wal := range []bool{false, true} {
 		if err := forwardedApply(c, c.Rng.Fork(), wal); err != nil {
 			return err
